@@ -300,6 +300,26 @@ PROPS["C02"]["obligations"].append(
              desc="fastcgi::parse_pairs on an arbitrary params body never reads outside body_ (length fields up to 2^31 included)",
              tiers=T(quick=dict(split=[[0, 1, 2, 4, 6]], unwind=12, unwindset={"F__ZN6cppcms4impl3cgi7fastcgi11parse_pairsEv.0": "p0+2"}, timeout=900, bounds="every body of length 0,1,2,4,6 (exact-size heap block)"))))
 
+PROPS["C03"] = dict(
+    title="The client receives exactly the bytes the application wrote, once and in order",
+    level="model_checking",
+    trusted_base=COMMON_TB,
+    assumptions=["buffer_impl::add is executed with vec_'s storage pre-sized to 8 chunks (models/stubs_c03.c): libstdc++ vector growth is not the subject",
+                 "chunk sizes <= 2^40 (no size_t overflow of the byte total)"],
+    outside="connection::nonblocking_write / async_write loops, chunked HTTP framing, gzip, copy_buf / cache copy, SCGI/HTTP output paths, "
+            "std::ostream formatting of headers, socket layer; FastCGI responses longer than 70000 bytes per call",
+    obligations=[
+        dict(id="C03.a", harness="C03_fastcgi_out.cpp", entry="h_c03a_advance", ctors=False, clang_flags=["-fno-inline"],
+             drop=["11buffer_implIPKcE3addES3_m"], roots=["verif_buffer_add"], models=["stubs_c03.c"], replay="generated", max_alloc=128,
+             desc="booster::aio::details::advance(buf,n) (pending output after a short write) == the bytes of buf after the first n, chunk by chunk",
+             tiers=T(quick=dict(split=[[0, 1, 2, 3]], unwind=6, unwindset={"verif_memmove.0": 70, "verif_memcpy.0": 70, "verif_memset.0": 70}, timeout=900, bounds="gather lists of 0..3 chunks, every chunk size 1..2^40, every n (64 bit)"))),
+        dict(id="C03.c", harness="C03_fastcgi_out.cpp", entry="h_c03c_fcgi_framing", ctors=False, clang_flags=["-fno-inline"],
+             drop=["11buffer_implIPKcE3addES3_m"], roots=["verif_buffer_add"], models=["stubs_c03.c"], replay="generated", max_alloc=128,
+             desc="fastcgi::format_output: STDOUT records (<= 65535 content, 8-byte aligned, right request id) carry header block + payload once and in order; EOF block iff completed",
+             tiers=T(quick=dict(split=[[0, 1]], unwind=6, unwindset={"verif_memmove.0": 70, "verif_memcpy.0": 70, "verif_memset.0": 70}, timeout=900, bounds="one application write of 0..70000 bytes (symbolic), with / without a pending 8-byte header block; request id, completed symbolic"))),
+    ],
+)
+
 PROPS["C04"] = dict(
     title="XSS filter output contains only white-listed markup and is stable",
     level="model_checking",
@@ -406,7 +426,7 @@ PROPS["C17"] = dict(
         dict(id="C17.b", harness="C17_thread_pool.cpp", entry="h_c17b_exactly_once", ctors=False, clang_flags=["-fno-inline"], nvec=0, replay="generated",
              roots=["verif_cond_wait"], models=["stubs_c17.c"],
              desc="impl::thread_pool post/cancel/worker: every job runs at most once; a successfully cancelled job never runs; cancel succeeds iff the job is still queued; when a worker blocks every queued job has run exactly once even if jobs throw; jobs run with the mutex released; the mutex is balanced",
-             tiers=T(quick=dict(defs=dict(VERIF_K=3), unwind=6, unwindset={"verif_memset.0": 70, "verif_memcpy.0": 40, "X_strlen.0": 40}, timeout=1200, bounds="every sequence of 3 operations from {post, cancel(any job), worker-drain}; which jobs throw is symbolic"),
+             tiers=T(quick=dict(defs=dict(VERIF_K=3), unwind=6, unwindset={"verif_memset.0": 70, "verif_memcpy.0": 40, "X_strlen.0": 40}, timeout=1200, bounds="every sequence of 3 operations from {post, cancel(any 32-bit id), worker-drain}; which jobs throw is symbolic"),
                      thorough=dict(defs=dict(VERIF_K=4), unwind=7, unwindset={"verif_memset.0": 70, "verif_memcpy.0": 40, "X_strlen.0": 40}, timeout=3000, bounds="every sequence of 4 operations"))),
         dict(id="C17.c", harness="C17_thread_pool.cpp", entry="h_c17c_stop", ctors=False, clang_flags=["-fno-inline"], nvec=0, replay="generated",
              roots=["verif_cond_wait"], models=["stubs_c17.c"],
